@@ -24,8 +24,9 @@ THEOREMS = {"Proofs.Props.C08": ["MsPack.Cab.C08_not_reusable_is_fresh", "MsPack
             "Proofs.Props.C08ChmSession": ["MsPack.Chm.c08_extract_keeps", "MsPack.Chm.C08_chm_sec0_history_free_session", "MsPack.Chm.C08_chm_any_order"],
             "Proofs.Props.C08MszipFull": ["MsPack.Zip.C08_mszip_fail_sticky", "MsPack.Zip.C08_mszip_sticky_call", "MsPack.Zip.C08_mszip_fail_request_free",
                                           "MsPack.Cab.runPhases_after_failure", "MsPack.Cab.extract_mszip_after_failure"],
+            "Proofs.Props.C08MszipHistory": ["MsPack.Cab.extract_full_cache", "MsPack.Cab.extract_full_fresh", "MsPack.Cab.C08_mszip_history_free", "MsPack.Cab.C08_mszip_history_free_single"],
             "Proofs.Props.C08Qtm": ["MsPack.Qtm.C08_qtm_pending_exact", "MsPack.Qtm.C08_qtm_chunk_law_pending"]}
-ASSUMPTIONS = ["forward re-use of a live decoder is proved for stored folders (C08_stored_any_order: any call sequence, any order, repeated members); for MSZIP the decoder's chunking law is a theorem (C08Mszip: asking for a then b is asking for a+b - same bytes, same final state, both directions; any split of N into call sizes gives the same data; a decoder-level model of cabd_extract's re-use rule returns each member's slice for any request list in any order) and is lifted through cabd_extract itself (C08MszipCab: for an MSZIP folder whose data [0,N) a fresh decoder delivers with OK as D, ANY list of extract() calls on members inside [0,N) - forward through the cached decoder, backward through a rebuilt one, repeated, overlapping - returns OK with exactly each member's slice of D; unconditional for a folder inside one cabinet, for multi-cabinet folders under one static fuel condition on the fresh feeder, which is about the model's fuel, not the C); and without any decodability premise on the requested member (C08MszipFree: after any history of OK extractions, ANY further call - a member beyond the decodable part, in a damaged block, failing - returns exactly the fresh instance's status and bytes); and after a FAILED call too (C08MszipFull, strict MSZIP: the error is sticky, a failure does not depend on the request size, so from the cache a failed call leaves any later extract() returns the fresh instance's status and bytes: extract_mszip_after_failure); the two one-step theorems cover both kinds of cache, what is not done is the induction over the call list that re-establishes the cache invariant after every call, and repair mode (fix_mszip), the chunking law of LZX; Quantum: only the stored-up part of the law holds (C08Qtm) - the converse law is FALSE of model and code for windows < 32 KiB (a request ending inside a window-wrapping match takes qtmd.c's bail-out: known finding D2, rediscovered by the proof attempt); CHM (C08Chm): a section-0 member extracts exactly as on a fresh instance from every cache state whose handle for this header is on this header's file (the cached LZX decoder, offsets, positions, sticky error: anything), and any list of section-0 calls over several files, in any order, failing ones included, returns the fresh results; and this holds in any session: every extract call of either section, succeeding or failing, keeps the cache consistent (C08ChmSession: c08_extract_keeps), so in any mixed list of calls each section-0 call returns the fresh-instance result (C08_chm_any_order); section-1 members themselves: covered by the history oracle and model agreement",
+ASSUMPTIONS = ["forward re-use of a live decoder is proved for stored folders (C08_stored_any_order: any call sequence, any order, repeated members); for MSZIP the decoder's chunking law is a theorem (C08Mszip: asking for a then b is asking for a+b - same bytes, same final state, both directions; any split of N into call sizes gives the same data; a decoder-level model of cabd_extract's re-use rule returns each member's slice for any request list in any order) and is lifted through cabd_extract itself (C08MszipCab: for an MSZIP folder whose data [0,N) a fresh decoder delivers with OK as D, ANY list of extract() calls on members inside [0,N) - forward through the cached decoder, backward through a rebuilt one, repeated, overlapping - returns OK with exactly each member's slice of D; unconditional for a folder inside one cabinet, for multi-cabinet folders under one static fuel condition on the fresh feeder, which is about the model's fuel, not the C); and without any decodability premise on the requested member (C08MszipFree: after any history of OK extractions, ANY further call - a member beyond the decodable part, in a damaged block, failing - returns exactly the fresh instance's status and bytes); and after a FAILED call too (C08MszipFull, strict MSZIP: the error is sticky, a failure does not depend on the request size, so from the cache a failed call leaves any later extract() returns the fresh instance's status and bytes: extract_mszip_after_failure); and the induction (C08MszipHistory): C08_mszip_history_free - for a strict-mode MSZIP folder ANY list of extract() calls on ANY members, nothing assumed to decode, failing calls anywhere in the history: every call that returns gives exactly the fresh instance's status and bytes (single-cabinet folders outright; chains under the model's static fuel condition); outside: repair mode (fix_mszip), the chunking law of LZX; Quantum: only the stored-up part of the law holds (C08Qtm) - the converse law is FALSE of model and code for windows < 32 KiB (a request ending inside a window-wrapping match takes qtmd.c's bail-out: known finding D2, rediscovered by the proof attempt); CHM (C08Chm): a section-0 member extracts exactly as on a fresh instance from every cache state whose handle for this header is on this header's file (the cached LZX decoder, offsets, positions, sticky error: anything), and any list of section-0 calls over several files, in any order, failing ones included, returns the fresh results; and this holds in any session: every extract call of either section, succeeding or failing, keeps the cache consistent (C08ChmSession: c08_extract_keeps), so in any mixed list of calls each section-0 call returns the fresh-instance result (C08_chm_any_order); section-1 members themselves: covered by the history oracle and model agreement",
                "fault-free host"]
 RULE = ("cab.history / chm.history: well-formed generated archives (cab: 1-3 folders, split sets; chm: both sections), a history of 6-14 extract calls drawn with repetition over "
         "all members (two archives interleaved on one decompressor in a third of the cases; one block of one folder damaged in a quarter), each call compared with the same member "
